@@ -144,6 +144,16 @@ def evaluate(run, lines, meta, exe, drv):
                 else:
                     end = 'err'
             obs = ('ok' if tag(o[1]) == 'ok' else 'open-err', oks, end)
+            # the deserializing iterator (into_deser_iter) over the same bytes: same number of values, same kind of end
+            if len(o) > 3 and tag(o[3]) == 'deser':
+                dn, dend, dlate = int(o[3][1]), o[3][2], int(o[3][3])
+                run.count('deser-iter:' + dend)
+                if dlate:
+                    run.fail('values-after-error', '%s: the deserializing iterator delivered %d values AFTER its error' % (what, dlate), case)
+                    continue
+                if (dn, dend) != (len(oks), 'clean' if end == 'clean' else 'err'):
+                    run.fail('deser-iterator-differs', '%s: Reader delivers %d values and ends %s, into_deser_iter delivers %d and ends %s' % (what, len(oks), end, dn, dend), case)
+                    continue
             if late:
                 run.fail('values-after-error', '%s: %d values were delivered AFTER the error was reported (the reader must stop)' % (what, late), case)
                 continue
